@@ -75,5 +75,6 @@ for patch in selftest/mutants/*.patch seeded/*/patch.diff; do
 done
 } > "$OUT"
 cat "$OUT"
+if grep -v '^#' "$OUT" | awk -F'|' '{ if ($4 !~ /^ *- *$/ || $5 !~ /^ *- *$/) bad=1 } END { exit bad }'; then echo "SENSITIVITY OK: every mutant is caught by every check it is meant to break, no harness errors"; rc=0; else echo "SENSITIVITY GAPS (see columns 4 and 5)"; rc=1; fi
 rm -rf "$WORK"
-if grep -v '^#' "$OUT" | awk -F'|' '{ if ($4 !~ /^ *- *$/ || $5 !~ /^ *- *$/) bad=1 } END { exit bad }'; then echo "SENSITIVITY OK: every mutant is caught by every check it is meant to break, no harness errors"; exit 0; else echo "SENSITIVITY GAPS (see columns 4 and 5)"; exit 1; fi
+exit $rc
